@@ -338,6 +338,19 @@ class Interp:
 
     def project(self, st, v, p):
         v = self.resolve(st, v)
+        if isinstance(p, tuple) and p and p[0] == "subslice":
+            # `[a, b, rest @ ..]`: the elements from `from` on (without the last `to` ones when counted from the end)
+            _k, frm, to, from_end = p
+            if isinstance(v, Seq):
+                if v.elems is not None:
+                    e = v.elems[frm:len(v.elems) - to] if from_end else v.elems[frm:to]
+                    return Seq("%s[%d..]" % (v.name, frm), Aff(len(e)), list(e), None, v.attrs, v.kind)
+                ln = v.length.sub(Aff(frm + to)) if from_end else Aff(to - frm)
+                at = dict(v.attrs)
+                bn, off = v.attrs.get("elem_base", (v.name, 0))
+                at["elem_base"] = (bn, off + frm)
+                return Seq("%s[%d..%s]" % (bn, off + frm, ("-%d" % to) if (from_end and to) else ("" if from_end else str(off + to))), ln, None, None, at, v.kind)
+            return Top("subslice of %r" % (v,))
         if isinstance(p, tuple) and p and p[0] == "range":
             if isinstance(v, Seq):
                 return Seq("%s[%r..%r]" % (v.name, p[1], p[2]), p[2].sub(p[1]), kind="bytes")
@@ -346,6 +359,10 @@ class Interp:
             if p in v.fields:
                 return v.fields[p]
             if isinstance(p, str) and p.startswith("@"):
+                return v
+            if v.adt == "MapV" and p == "0":
+                # a private newtype around the map (struct Claims(HashMap<..>)) given a concrete map by the analysis: the wrapper's
+                # only field is the map
                 return v
             # a field of the type that the analysis did not give a value (e.g. one added to the struct): unknown initial value
             ad = self.facts.adts.get(v.adt) if v.variant is None else None
@@ -382,9 +399,13 @@ class Interp:
 
     def seq_elem(self, st, seq, i):
         et = seq.attrs.get("elem")
+        nm = seq.name
+        if seq.attrs.get("elem_base") is not None and isinstance(i, int) and i >= 0:
+            nm, off = seq.attrs["elem_base"]      # an element of `rest @ ..` is an element of the whole sequence
+            i = off + i
         if et == "str":
-            return Seq("%s[%s]" % (seq.name, i), Aff.sym("len(%s[%s])" % (seq.name, i)), kind="str", attrs=seq.attrs.get("elem_attrs"))
-        return Sym("%s[%s]" % (seq.name, i))
+            return Seq("%s[%s]" % (nm, i), Aff.sym("len(%s[%s])" % (nm, i)), kind="str", attrs=seq.attrs.get("elem_attrs"))
+        return Sym("%s[%s]" % (nm, i))
 
     def set_path(self, st, v, path, new):
         if not path:
@@ -395,6 +416,8 @@ class Interp:
             attrs = dict(v.attrs)
             attrs["writes"] = list(attrs.get("writes", [])) + [(p[1], p[2], new)]
             return Seq(v.name, v.length, v.elems, v.chunks, attrs, v.kind)
+        if isinstance(v, Struct) and v.adt == "MapV" and p == "0":
+            return self.set_path(st, v, path[1:], new)
         if isinstance(v, Struct):
             f = dict(v.fields)
             f[p] = self.set_path(st, v.fields.get(p, Top("uninit")), path[1:], new)
@@ -457,6 +480,8 @@ class Interp:
                     path = path + ("[?]",)
             elif k == "cidx":
                 path = path + ((-pr["offset"] if pr["from_end"] else pr["offset"]),)
+            elif k == "subslice":
+                path = path + (("subslice", pr["from"], pr["to"], bool(pr["from_end"])),)
             else:
                 path = path + ("<%s>" % k,)
         path = tuple(p for p in path if not (isinstance(p, str) and p.startswith("@")))
@@ -509,8 +534,22 @@ class Interp:
             return Ptr(st.new_cell(Sym("static " + op["static"])), ())
         if "uneval" in op:
             ub = self.facts.bodies.get(op["uneval"])
+            m_ = re.match(r"^<(.+) as ([\w:]+)(<.*>)?>::(\w+)$", op.get("uneval_inst") or "")
+            if m_ and fr.tparams:
+                # an associated constant of a trait, named through a bound type parameter (`Self::NONCE_LEN` in a provided method): the
+                # value the implementation for that type gives it, else the trait's default
+                def subst(txt):
+                    for k_, v_ in fr.tparams.items():
+                        txt = re.sub(r"(?<![\w:'])%s(?![\w:])" % re.escape(k_), lambda _m, v_=v_: v_, txt)
+                    return re.sub(r"'\w+", "'_", txt).replace(" ", "")
+                nrm = lambda txt: re.sub(r"'\w+", "'_", txt or "").replace(" ", "")
+                want_self = subst(m_.group(1))
+                cands = [b for b in self.facts.bodies.values() if str(b.get("kind", "")).startswith("AssocConst") and (b.get("name") or b["id"].rsplit("::", 1)[-1]) == m_.group(4)
+                         and (b.get("impl_trait") or "").split("<")[0] == m_.group(2) and nrm(b.get("impl_self")) == want_self]
+                if len(cands) == 1:
+                    ub = cands[0]
             if ub is not None:
-                outs = [o for o in self._call_body(st, ub, [], 99, fork_ok=False)]
+                outs = [o for o in self._call_body(st, ub, [], 99, fork_ok=False, tparams=fr.tparams or None)]
                 if len(outs) == 1 and outs[0][1] == "return":
                     return outs[0][2]
             return Sym("const " + M.short(op.get("uneval_inst", op["uneval"])), ty)
@@ -909,7 +948,7 @@ class Interp:
                 if idx is None:
                     return self._fork_all(st, targets, other, "discr of %r" % (v,))
                 for val, bb in targets:
-                    if val == idx:
+                    if val == idx or (idx < 0 and val in (idx & 0xff, idx & ((1 << 128) - 1))):
                         return [(st, bb)]
                 return [(st, other)]
             if isinstance(v, Sym):
@@ -983,6 +1022,8 @@ class Interp:
     }
 
     def variant_index(self, v):
+        if v.adt == "core::cmp::Ordering":
+            return {"Less": -1, "Equal": 0, "Greater": 1}.get(v.variant)      # explicit discriminants
         names = self.VARIANTS.get(v.adt)
         if names is None:
             adt = self.facts.adts.get(v.adt)
@@ -1126,10 +1167,19 @@ class Interp:
         path (`Header<Version, Purpose>` against `Header<V1, Local>`); a parameter instantiated with one of the caller's own parameters
         inherits the caller's binding"""
         names = [g["name"] for g in body.get("impl_generics", []) + body.get("generics", []) if g["kind"] == "type"]
-        if not names:
-            return None
         gen = c.get("resolved") or c.get("def") or ""
         inst = c.get("resolved_inst") or c.get("inst") or ""
+        ms = re.match(r"^<(.+) as [\w:]+(<.*>)?>::\w+(::<.*>)?$", inst)
+        if ms and not gen.startswith("<") and (body.get("impl_self") is None):
+            # a provided method of a trait called for a concrete type: `Self` is that type
+            ty = ms.group(1)
+            for k_, v_ in (fr.tparams or {}).items():
+                ty = re.sub(r"(?<![\w:'])%s(?![\w:])" % re.escape(k_), lambda _m, v_=v_: v_, ty)
+            res = dict(fr.tparams or {})
+            res["Self"] = ty
+            return res
+        if not names:
+            return None
         out = {}
         i = j = 0
         n, m = len(gen), len(inst)
